@@ -8,7 +8,7 @@ VERIF_REPO=$WT ./check $PROP --tier quick -evidence /tmp/ev_seed_$SID.json -repl
 rc=$?
 echo "check exit: $rc"
 grep "VIOLATION\|key=" /tmp/check_$SID.log | head -4 | cut -c1-250
-keys=$(grep -o "key=[^ ]*" /tmp/check_$SID.log | sort -u | head -6 | tr '\n' ' ')
+keys=$(grep -a -o "key=[^ ]*" /tmp/check_$SID.log | sort -u | head -6 | tr '\n' ' ')
 python3 - "seeded/$SID/meta.json" "$PROP" "$rc" "$keys" "$NOTE" <<'PY'
 import json,sys
 p,prop,rc,keys,note=sys.argv[1:6]
